@@ -58,6 +58,9 @@ pub fn install_panic_hook() {
         } else {
             "<non-string payload>".into()
         };
+        if std::env::var("VERIF_DEBUG").is_ok() {
+            elog(&format!("panic at {loc} :: {msg}"));
+        }
         LAST_PANIC.with(|p| *p.borrow_mut() = Some(format!("{loc} :: {msg}")));
     }));
 }
